@@ -53,8 +53,24 @@ func hostMatches(pattern, ip string) bool {
 		return true
 	case pattern == "localhost":
 		return ip == "127.0.0.1"
-	case strings.HasSuffix(pattern, "%"):
-		return strings.HasPrefix(ip, strings.TrimSuffix(pattern, "%"))
+	case strings.Contains(pattern, "%"):
+		// % matches any run of characters, anywhere in the pattern; the whole
+		// address has to match
+		parts := strings.Split(pattern, "%")
+		if !strings.HasPrefix(ip, parts[0]) {
+			return false
+		}
+		rest := ip[len(parts[0]):]
+		for i := 1; i < len(parts); i++ {
+			if i == len(parts)-1 {
+				return strings.HasSuffix(rest, parts[i])
+			}
+			j := strings.Index(rest, parts[i])
+			if j < 0 {
+				return false
+			}
+			rest = rest[j+len(parts[i]):]
+		}
 	}
 	return pattern == ip
 }
@@ -73,7 +89,7 @@ func runC40(env *kernel.Env) {
 		db.AddRootAccount()
 	}})
 	defer w.Close()
-	ips := []string{"127.0.0.1", "10.1.2.3", "192.168.0.5", "172.16.0.9"}
+	ips := []string{"127.0.0.1", "10.1.2.3", "10.1.2.33", "192.168.0.5", "192.168.0.55", "192.168.10.5", "172.16.0.9"}
 	clientIP := map[int]string{}
 	w.Net.ClientIP = func(id int) string {
 		if ip, ok := clientIP[id]; ok {
@@ -85,7 +101,7 @@ func runC40(env *kernel.Env) {
 	adminSess := memory.NewSession(sql.NewBaseSessionWithClientServer("inproc", sql.Client{Address: "localhost", User: "root"}, 9999), w.Pro)
 	adminSess.SetCurrentDatabase("d")
 	admin := &inproc{w: w, sess: adminSess}
-	hosts := []string{"%", "localhost", "10.%", "192.168.0.5"}
+	hosts := []string{"%", "localhost", "10.%", "192.168.0.5", "%.0.5", "10.%.3", "192.%.0.5"}
 	var accounts []*c40Account
 	naccounts := T.Range(1, 4)
 	for i := 0; i < naccounts; i++ {
